@@ -85,6 +85,10 @@ pub mod verif {
 
 pub mod config;
 
+/// Verification hooks: the real `WebSocketTransport` behind a public facade. Adds code only.
+#[cfg(feature = "verif")]
+pub mod verif_transport;
+
 /// Logging target for the file.
 const LOG_TARGET: &str = "litep2p::websocket";
 
